@@ -1,11 +1,12 @@
 """Suite c07: the EMITTED scope publisher and subscriber over an in-memory broker (runner/pubsub.go).
 
-One case = one subscription of one operation of a random scope (prefix literals and variables) followed by
-3..8 actions: valid publishes (same variable values / other values — the topic decides, also when two different
+One case = 1..4 subscriptions made from ONE emitted subscriber object / ONE FScopeProvider (the same operation with
+the same variable values = the same topic, with other values, another operation of the scope), each with its own
+handler, and 3..9 actions: valid publishes (same variable values / other values — the topic decides, also when two different
 value lists render to the same topic), publishes of another operation of the scope, raw malformed messages and
 wrong-operation envelopes injected on the topic, Unsubscribe followed by more publishes; binary / compact / JSON.
-ORACLE (written here from the property, independent of the Lean model): the handler is invoked exactly for the
-valid publishes whose topic equals the subscription's, before Unsubscribe, in order, with an equal payload
+ORACLE (written here from the property, independent of the Lean model), per subscription: its handler is invoked
+exactly for the valid publishes whose topic equals the subscription's (never for another subscription's topic), before Unsubscribe, in order, with an equal payload
 (canonical dump) and request headers = {_cid, _timeout} + user headers + _topic_<var> = value."""
 from genlib import *
 
@@ -76,12 +77,26 @@ def suite_c07(r, n):
             proto = r.pick(["binary", "compact", "json"])
             def vals(): return [r.pick(VAR_VALUES) for _ in names]
             def varg(vs): return "+".join(hx(v) for v in vs) if vs else "."
+            # subscriptions: ALL made from the one emitted subscriber object / the one FScopeProvider
+            subs = []            # {"op", "ty", "vals", "topic", "on"}
+            acts, expect_acts, expect_calls = [], [], []
+            seq = 0
+            def add_sub(kind, vs):
+                sop, sty = (op, oty) if kind == "S" else (oop, ooty)
+                t = render_topic(prefix, vs, skey[1], sop)
+                subs.append({"op": sop, "ty": sty, "vals": vs, "topic": t, "on": True})
+                acts.append("%s!%s" % (kind, varg(vs)))
+                expect_acts.append("sub:" + t.hex())
+                Stat("act:%s" % kind)
             sub_vals = vals()
-            sub_topic = render_topic(prefix, sub_vals, skey[1], op)
-            acts = ["S!" + varg(sub_vals)]
-            expect_acts = ["sub:" + sub_topic.hex()]
-            expect_calls = []
-            subscribed, seq = True, 0
+            add_sub("S", sub_vals)
+            def more_sub():
+                c = r.intn(10)
+                if c < 4: add_sub("S", sub_vals); Stat("multi:same-topic")
+                elif c < 7 or not oop: add_sub("S", vals()); Stat("multi:other-values")
+                else: add_sub("T", r.pick([sub_vals, vals()])); Stat("multi:other-operation")
+            if r.chance(55):
+                for _ in range(1 + r.intn(2)): more_sub()
             def ctx_fields():
                 nonlocal seq
                 seq += 1
@@ -92,56 +107,60 @@ def suite_c07(r, n):
                 if names and r.chance(10): hdrs[b"_topic_" + r.pick(names).encode()] = b"spoof"
                 ps = ";".join("%s:%s" % (k.hex(), hdrs[k].hex()) for k in sorted(hdrs)) if hdrs else "-"
                 return cid, hdrs, ps
-            for _ in range(3 + r.intn(6)):
+            def deliver(topic, fn):
+                """what the broker does with a message on `topic`: fn(sub index, sub) per live subscription, in order"""
+                rs = [fn(k, sb) for k, sb in enumerate(subs) if sb["on"] and sb["topic"] == topic]
+                expect_acts.append("+".join(rs) if rs else "nosub")
+                return len(rs)
+            def publish(kind, pop, pty, pkey, vs):
+                v = gen_struct(r, p, pkey)
+                cid, hdrs, ps = ctx_fields()
+                acts.append("%s!%s!%s!%s!%s" % (kind, varg(vs), cid.hex(), ps, dump_val(v)))
+                h = {b"_cid": cid, b"_timeout": TIMEOUT_DEFAULT.encode()}
+                h.update(hdrs)
+                for nm, val in zip(names, vs): h[b"_topic_" + nm.encode()] = val
+                hs = ";".join("%s:%s" % (k.hex(), h[k].hex()) for k in sorted(h))
+                def one(k, sb):
+                    expect_calls.append("%d:%s@%s" % (k, canon_dump(p, pty, v), hs))
+                    return "cb:ok"
+                return deliver(render_topic(prefix, vs, skey[1], pop), one)
+            for _ in range(3 + r.intn(7)):
                 c = r.intn(100)
-                if c < 40 or (c < 55 and not names):        # valid publish, the subscription's variable values
-                    vs = sub_vals if (r.chance(75) or not names) else vals()
-                    v = gen_struct(r, p, okey)
-                    cid, hdrs, ps = ctx_fields()
-                    acts.append("P!%s!%s!%s!%s" % (varg(vs), cid.hex(), ps, dump_val(v)))
-                    on = subscribed and render_topic(prefix, vs, skey[1], op) == sub_topic
-                    expect_acts.append("cb:ok" if on else "nosub")
-                    if on:
-                        h = {b"_cid": cid, b"_timeout": TIMEOUT_DEFAULT.encode()}
-                        h.update(hdrs)
-                        for nm, val in zip(names, vs): h[b"_topic_" + nm.encode()] = val
-                        expect_calls.append(canon_dump(p, oty, v) + "@" + ";".join("%s:%s" % (k.hex(), h[k].hex()) for k in sorted(h)))
-                    Stat("act:P:" + ("delivered" if on else ("after-unsub" if not subscribed else "other-topic")))
-                elif c < 55:                                  # other variable values
-                    vs = vals()
-                    v = gen_struct(r, p, okey)
-                    cid, hdrs, ps = ctx_fields()
-                    acts.append("P!%s!%s!%s!%s" % (varg(vs), cid.hex(), ps, dump_val(v)))
-                    on = subscribed and render_topic(prefix, vs, skey[1], op) == sub_topic
-                    expect_acts.append("cb:ok" if on else "nosub")
-                    if on:
-                        h = {b"_cid": cid, b"_timeout": TIMEOUT_DEFAULT.encode()}
-                        h.update(hdrs)
-                        for nm, val in zip(names, vs): h[b"_topic_" + nm.encode()] = val
-                        expect_calls.append(canon_dump(p, oty, v) + "@" + ";".join("%s:%s" % (k.hex(), h[k].hex()) for k in sorted(h)))
-                    Stat("act:P:" + ("same-topic-other-values" if (on and vs != sub_vals) else ("delivered" if on else "other-topic")))
-                elif c < 67 and oop:                          # another operation of the scope
-                    v = gen_struct(r, p, ookey)
-                    cid, hdrs, ps = ctx_fields()
-                    acts.append("Q!%s!%s!%s!%s" % (varg(sub_vals), cid.hex(), ps, dump_val(v)))
-                    expect_acts.append("nosub")
-                    Stat("act:Q")
-                elif c < 80:                                  # raw malformed message on the topic
+                s_subs = [k for k, sb in enumerate(subs) if sb["op"] == op]
+                if c < 36:                                    # valid publish with some subscription's variable values
+                    vs = r.pick([sb["vals"] for sb in subs]) if r.chance(80) else vals()
+                    n_del = publish("P", op, oty, okey, vs)
+                    Stat("act:P:delivered-to-%d" % min(n_del, 3))
+                elif c < 48:                                  # other variable values
+                    n_del = publish("P", op, oty, okey, vals())
+                    Stat("act:P:delivered-to-%d" % min(n_del, 3))
+                elif c < 60 and oop:                          # another operation of the scope
+                    vs = r.pick([sb["vals"] for sb in subs])
+                    n_del = publish("Q", oop, ooty, ookey, vs)
+                    Stat("act:Q:delivered-to-%d" % min(n_del, 3))
+                elif c < 72:                                  # raw malformed message on a subscription's topic
                     raw = gen_raw(r)
-                    acts.append("M!" + (raw.hex() if raw else ""))
-                    expect_acts.append("nosub" if not subscribed else ("nocb" if len(raw) < 4 else "cb:err"))
+                    k = r.intn(len(subs))
+                    acts.append("M!" + (raw.hex() if raw else "") + ("!%d" % k if (k or r.chance(30)) else ""))
+                    deliver(subs[k]["topic"], lambda kk, sb: "nocb" if len(raw) < 4 else "cb:err")
                     Stat("act:M:" + ("short" if len(raw) < 4 else "long"))
-                elif c < 90:                                  # wrong operation name in the envelope
+                elif c < 81:                                  # wrong operation name in the envelope
                     name = r.pick([oop or "Nope", "Nope", op.lower(), op + "x", ""])
                     if name == op: name = "Nope"
+                    k = r.pick(s_subs)
                     v = gen_struct(r, p, okey)
                     cid, hdrs, ps = ctx_fields()
-                    acts.append("E!%s!%s!%s!%s" % (hx(name.encode()), cid.hex(), ps, dump_val(v)))
-                    expect_acts.append("cb:err" if subscribed else "nosub")
+                    acts.append("E!%s!%s!%s!%s" % (hx(name.encode()), cid.hex(), ps, dump_val(v)) + ("!%d" % k if (k or r.chance(30)) else ""))
+                    deliver(subs[k]["topic"], lambda kk, sb: "cb:err")
                     Stat("act:E")
-                elif subscribed:
-                    acts.append("U"); expect_acts.append("unsub"); subscribed = False
-                    Stat("act:U")
+                elif c < 90:
+                    k = r.intn(len(subs))
+                    if subs[k]["on"]:
+                        acts.append("U!%d" % k if (k or r.chance(50)) else "U"); expect_acts.append("unsub"); subs[k]["on"] = False
+                        Stat("act:U")
+                elif len(subs) < 4:
+                    more_sub()
+            Stat("subscriptions-from-one-subscriber:%d" % len(subs))
             toks = ",".join(("v:" + x.encode().hex()) if k == "var" else ("l:" + x.encode().hex()) for (k, x) in prefix) if prefix else "."
             payload = "%s|%s|%s|%s|%s" % (proto, op, oop or "-", ("%s/%s" % ookey) if ookey else "-", "/".join(acts))
             jobs.append(("ps7", "p%d" % p.pid, "%s/%s" % skey, "%s/%s" % okey, payload))
